@@ -433,6 +433,10 @@ type Bool struct {
 	Cmp *CmpInfo
 	Key string // identity of an unknown boolean (entry symbol), "" if none
 	Neg bool
+	// NilOf: this boolean is a nil test of that SSA value (opaque here); it is true
+	// exactly when the value is nil if NilSense, exactly when it is non-nil otherwise
+	NilOf    any
+	NilSense bool
 }
 
 // Obj is an abstract memory object.
@@ -507,6 +511,11 @@ type Str struct {
 type Top struct {
 	T   types.Type
 	Key string
+	// NonNil: an interface value known not to be nil (a freshly made error).
+	NonNil bool
+	// NilIf: the value is nil exactly when this (undecided) condition holds: the merge
+	// of a nil and a non-nil value under a named branch.
+	NilIf *Bool
 }
 
 // Slot is a value loaded from a dispatch table (array of functions or interfaces)
